@@ -1275,6 +1275,16 @@ class Engine:
             alias = self.c.get('attr_alias', {}).get(f'{base.name}.{a}')
             if alias is not None and alias in base.fields:      # a read-only property that returns a modelled field (stated, and listed as assumed, by the contract)
                 return base.fields[alias]
+            if alias is not None and 'it.' in alias:            # ... or an expression over the record (`it`), e.g. size = it._shape[0] * it._shape[1]
+                saved = st.env.get('it')
+                st.env['it'] = base
+                try:
+                    return self.ev(ast.parse(alias, mode='eval').body, st)
+                finally:
+                    if saved is None:
+                        st.env.pop('it', None)
+                    else:
+                        st.env['it'] = saved
             v = self.menv.attr_model(base, a, self, st)
             if v is not None:
                 return v
